@@ -189,6 +189,14 @@ Theorem C07_a_destroyed_thread_is_not_woken :
 Proof. exact (@destroyed_thread_is_not_woken). Qed.
 Print Assumptions C07_a_destroyed_thread_is_not_woken.
 
+(* the interpreter's fuel: a result obtained with some fuel is the result with any larger fuel
+   (the particular amount [fuel_for] only decides WHETHER a result is obtained) *)
+Theorem C07_more_fuel_never_changes_a_result :
+  forall (T : Type) (P : prims T) f f' k x s r,
+    (f <= f')%nat -> go P f k x s = Some r -> go P f' k x s = Some r.
+Proof. exact (@go_fuel_mono). Qed.
+Print Assumptions C07_more_fuel_never_changes_a_result.
+
 (* a thread that proceeds or dies withdraws all its registrations and nobody else's *)
 Theorem C07_a_proceeding_thread_withdraws_all_its_registrations :
   forall w x,
